@@ -69,6 +69,39 @@ func (s *faultByteSink) WriteByte(c byte) error {
 	return nil
 }
 
+// faultFlushSink: a sink that also has a Flush() error method (like a *bufio.Writer) but keeps no
+// sticky error: after the one injected failure it works again.
+type faultFlushSink struct{ *faultSink }
+
+func (s *faultFlushSink) Flush() error { return nil }
+
+// faultRichSink: a sink that also implements io.StringWriter and io.ReaderFrom; both go through the
+// same fault logic as Write.
+type faultRichSink struct{ *faultSink }
+
+func (s *faultRichSink) WriteString(x string) (int, error) { return s.Write([]byte(x)) }
+
+func (s *faultRichSink) ReadFrom(r io.Reader) (int64, error) {
+	var total int64
+	buf := make([]byte, 512)
+	for {
+		n, err := r.Read(buf)
+		if n > 0 {
+			k, werr := s.Write(buf[:n])
+			total += int64(k)
+			if werr != nil {
+				return total, werr
+			}
+		}
+		if err == io.EOF {
+			return total, nil
+		}
+		if err != nil {
+			return total, err
+		}
+	}
+}
+
 type C09W struct {
 	Writer  string // xzW, lzma2W, lzmaW-bufio, lzmaW-bytewriter
 	FailAt  int
@@ -76,6 +109,9 @@ type C09W struct {
 	Half    bool
 	Retry   bool `json:",omitempty"` // enumerated histories: a call that returned an error is issued once more (Write: with the bytes not yet accepted)
 	FailAt2 int  `json:",omitempty"` // deviation bound 2: a second sink call that fails once (index in the run with the first fault)
+	// SinkKind: 0 a bare io.Writer; 1 additionally a Flush() error method (no sticky error); 2 additionally
+	// io.StringWriter and io.ReaderFrom
+	SinkKind int `json:",omitempty"`
 }
 
 type C09R struct {
@@ -251,6 +287,12 @@ func c09Writer(r *core.Run, p C09W) c09Run {
 	} else {
 		fs = &faultSink{failAt: p.FailAt, failAt2: p.FailAt2, forever: p.Forever, half: p.Half}
 		sink = fs
+		switch p.SinkKind {
+		case 1:
+			sink = &faultFlushSink{fs}
+		case 2:
+			sink = &faultRichSink{fs}
+		}
 	}
 	res.failCall = -1
 	rec := func(call string, n, l int, err error) {
@@ -422,6 +464,10 @@ func c09WriterJudge(r *core.Run, p C09W, base c09Run) {
 	}
 	site := fmt.Sprintf("%s fail@%s mode=%s", wname, what, mode)
 	desc := fmt.Sprintf("%s: sink call %d of %d fails (%s); history Write,Write,[Flush],Close,Close", p.Writer, p.FailAt, len(base.offs), mode)
+	if p.SinkKind > 0 {
+		site += fmt.Sprintf(" sink-kind=%d", p.SinkKind)
+		desc += []string{"", "; the sink also has a Flush() error method", "; the sink is also an io.StringWriter and io.ReaderFrom"}[p.SinkKind]
+	}
 	var hist []string
 	reported := false
 	// reported: the call during which the sink failed, or a later call up to and
@@ -637,7 +683,7 @@ func runC09(r *core.Run) {
 	if thorough(r) {
 		level = 1
 	}
-	r.Rule = "writers (xz multi-block, LZMA2 with Flush, classic LZMA through bufio and through io.ByteWriter) with history Write,Write,[Flush],Close,Close: EVERY index k of the sink's Write/WriteByte calls of the fault-free run x {once, forever} x {0 accepted, half accepted}; plus LZMA2 raw chunks across the ring-buffer wrap, one Write spanning blocks, a Write that fills a 2 MiB chunk exactly; readers (all formats, the xz reader also with SingleStream, with and without data behind the first stream): EVERY source offset k fails {persistently, once (transient)} x {error alone, error with the last bytes} x caller buffer {1,4096}, and the caller goes on reading after the failure (no panic; end of stream only after the complete content); deviation bound 2 for sinks: every pair k1<k2 of once-failing sink calls on the short writer histories. non-trivial = distinct (subject, outcome class, call-result history / bytes delivered)"
+	r.Rule = "writers (xz multi-block, LZMA2 with Flush, classic LZMA through bufio and through io.ByteWriter) with history Write,Write,[Flush],Close,Close (five of them also on a sink that has a Flush method and on one that is an io.StringWriter / io.ReaderFrom): EVERY index k of the sink's Write/WriteByte calls of the fault-free run x {once, forever} x {0 accepted, half accepted}; plus LZMA2 raw chunks across the ring-buffer wrap, one Write spanning blocks, a Write that fills a 2 MiB chunk exactly; readers (all formats, the xz reader also with SingleStream, with and without data behind the first stream): EVERY source offset k fails {persistently, once (transient)} x {error alone, error with the last bytes} x caller buffer {1,4096}, and the caller goes on reading after the failure (no panic; end of stream only after the complete content); deviation bound 2 for sinks: every pair k1<k2 of once-failing sink calls on the short writer histories. non-trivial = distinct (subject, outcome class, call-result history / bytes delivered)"
 	type job struct {
 		w    *C09W
 		base *c09Run
@@ -670,6 +716,25 @@ func runC09(r *core.Run) {
 						continue // WriteByte has no partial write
 					}
 					jobs = append(jobs, job{w: &C09W{Writer: wn, FailAt: k, Forever: forever, Half: half}, base: &b})
+				}
+			}
+		}
+	}
+	// the same fixed histories on sinks of other kinds (a Flush method; io.StringWriter + io.ReaderFrom)
+	for _, wn := range []string{"xzW", "lzma2W", "lzmaW-bufio", "xzW-crc64", "lzmaW-size-eos"} {
+		for sk := 1; sk <= 2; sk++ {
+			base := c09Writer(r, C09W{Writer: wn, FailAt: -1, SinkKind: sk})
+			if base.pan != nil || base.failed {
+				panic("C09: fault-free run failed")
+			}
+			if out, err := c09Decode(base.fmt, base.sink); err != nil || !bytes.Equal(out, base.input) {
+				r.Violate(core.MkCase("C09", "writer", C09W{Writer: wn, FailAt: -1, SinkKind: sk}), wn+" fault-free run invalid", fmt.Sprintf("no fault injected, sink kind %d", sk), fmt.Sprint(err), "valid stream")
+				continue
+			}
+			b := base
+			for k := 0; k < len(base.offs); k++ {
+				for _, forever := range []bool{false, true} {
+					jobs = append(jobs, job{w: &C09W{Writer: wn, FailAt: k, Forever: forever, SinkKind: sk}, base: &b})
 				}
 			}
 		}
